@@ -130,3 +130,64 @@ Definition transfer (fuel : nat) (tr : tree) (st : store) (r : route) (v : field
   | RPromote t => deep_clone fuel tr st (root_of tr t) t false v
   | RShare => Some ((st, []), v)
   end.
+
+(* ---- the operations on whole states (mutators of the C05 invariant) ---- *)
+
+Definition push_root (rs : list (list field)) (h : hid) (v : field) : list (list field) :=
+  upd rs h (v :: roots_of rs h).
+
+(* the host moves a handle from thread [s] into thread [t] (re_root / push as an argument) *)
+Definition op_reroot (fuel : nat) (st8 : state) (s t : hid) (v : field) : option state :=
+  match transfer fuel (s_tree st8) (s_store st8) (RReroot s t) v with
+  | Some ((st', _), r) =>
+    Some (mkState (s_tree st8) st' (push_root (s_roots st8) t r) (s_alloc st8))
+  | None => None
+  end.
+
+(* `r <- v` / `send ch v` on the cell object [c]: clone into the heap of the cell's thread, store *)
+Definition op_cell_set (fuel : nat) (st8 : state) (c : oid) (v : field) : option state :=
+  match lookup (s_store st8) c with
+  | Some cb =>
+    match o_kind cb with
+    | KCell =>
+      match transfer fuel (s_tree st8) (s_store st8) (RCell (o_cell cb)) v with
+      | Some ((st', _), r) =>
+        Some (mkState (s_tree st8) (set_fields st' c [r]) (s_roots st8) (s_alloc st8))
+      | None => None
+      end
+    | _ => None
+    end
+  | None => None
+  end.
+
+(* `load r` / `recv ch` by thread [t]: the stored pointer itself is handed out *)
+Definition op_cell_get (st8 : state) (c : oid) (t : hid) : option state :=
+  match lookup (s_store st8) c with
+  | Some cb =>
+    match o_fields cb with
+    | f :: _ => Some (mkState (s_tree st8) (s_store st8) (push_root (s_roots st8) t f) (s_alloc st8))
+    | [] => None
+    end
+  | None => None
+  end.
+
+(* the value of a module evaluated by thread [t] becomes a global *)
+Definition op_promote (fuel : nat) (st8 : state) (t : hid) (v : field) : option state :=
+  match transfer fuel (s_tree st8) (s_store st8) (RPromote t) v with
+  | Some ((st', _), r) =>
+    Some (mkState (s_tree st8) st'
+                  (push_root (s_roots st8) (root_of (s_tree st8) t) r) (s_alloc st8))
+  | None => None
+  end.
+
+(* `spawn action` / `new_thread`: a child heap; the action is handed to the child as it is *)
+Definition op_spawn (st8 : state) (p : hid) (action : list field) : state * hid :=
+  let (tr', h) := add_child (s_tree st8) p in
+  (mkState tr' (s_store st8)
+           (upd (s_roots st8 ++ repeat [] (S h - length (s_roots st8))) h action)
+           (s_alloc st8 ++ repeat 0 (S h - length (s_alloc st8))),
+   h).
+
+(* a handle / stack slot goes away *)
+Definition op_drop_roots (st8 : state) (h : hid) : state :=
+  mkState (s_tree st8) (s_store st8) (upd (s_roots st8) h []) (s_alloc st8).
